@@ -26,6 +26,16 @@ Clear == Ok /\ Apply(Clear_Post)
 Drain(f) == Ok /\ Apply(Drain_Post(f))
 Reserve(n, ru) == Reserve_En(n, ru) /\ Apply(Reserve_Post(n, ru))
 ShrinkTo(m) == Ok /\ Apply(ShrinkTo_Post(m))
+\* clone(): exploration continues from the clone; dst.clone_from(self): from the destination
+CloneSelf(ru) == Clone_En(ru) /\ Apply(Clone_Post(ru))
+CloneFromInto(D, ru) == CloneFrom_En(D, ru) /\ Apply(CloneFrom_Post(D, ru))
+\* representative destination main tables: unallocated, empty, empty with tombstones (the D6
+\* shape), partly filled, full; every bucket count up to the bound
+DestTables ==
+    {HB!NewTbl} \cup
+    UNION {{HB!Tbl(b, 0, Cap(b)), HB!Tbl(b, Cap(b), 0), HB!Tbl(b, 0, Cap(b) - 1), HB!Tbl(b, 1, Cap(b) - 2)}
+           : b \in {x \in {4, 8, 16, 32} : x <= MaxB}}
+RuClone == {0, 1}
 
 \* the carry sets of the state in which the carry runs
 MvFor == IF mG = 0 /\ ~oP /\ M # {} /\ GrowB(mI, 1) # HB!Overflow THEN CarrySets(Grown(St, 1))
@@ -42,6 +52,8 @@ Next ==
     \/ \E f \in BOOLEAN : Drain(f)
     \/ \E n \in ResArgs, ru \in 0..1 : Reserve(n, ru)
     \/ \E m \in ShrArgs : ShrinkTo(m)
+    \/ \E ru \in RuClone : CloneSelf(ru)
+    \/ \E D \in DestTables, ru \in RuClone : CloneFromInto(D, ru)
 
 \* C07: the same exploration with calls that may be interrupted by a panicking Hash
 FaultNext ==
@@ -101,6 +113,11 @@ RefinesRefMap ==
     /\ AbsOf(Clear_Post) = {} /\ \A f \in BOOLEAN : AbsOf(Drain_Post(f)) = {}
     /\ \A n \in ResArgs, ru \in 0..1 : Reserve_En(n, ru) => (Good(Reserve_Post(n, ru)) => AbsOf(Reserve_Post(n, ru)) = All)
     /\ \A m \in ShrArgs : AbsOf(ShrinkTo_Post(m)) = All
+    \* C11: a clone / a clone_from destination holds exactly the source's elements, unsplit
+    /\ \A ru \in RuClone : Clone_En(ru) =>
+           LET P == Clone_Post(ru) IN Good(P) => (P.M = All /\ P.O = {} /\ ~P.oP /\ P.cur = {} /\ P.cN = 0)
+    /\ \A D \in DestTables, ru \in RuClone : CloneFrom_En(D, ru) =>
+           LET P == CloneFrom_Post(D, ru) IN Good(P) => (P.M = All /\ P.O = {} /\ ~P.oP /\ P.cur = {} /\ P.cN = 0)
 
 (***************************************************************************)
 (* Refinement to GriddleCount: the counters of every post-state are what   *)
@@ -130,4 +147,7 @@ RefinesCount ==
     /\ \A f \in BOOLEAN : CntOf(Drain_Post(f)) = GC!Drain_Post(f)
     /\ \A n \in ResArgs, ru \in 0..1 : (Reserve_En(n, ru) /\ GC!Reserve_En(n, ru)) => CntOf(Reserve_Post(n, ru)) = GC!Reserve_Post(n, ru)
     /\ \A m \in ShrArgs : CntOf(ShrinkTo_Post(m)) = GC!ShrinkTo_Post(m)
+    /\ \A ru \in RuClone : (Clone_En(ru) /\ GC!CloneSelf_En(ru)) => CntOf(Clone_Post(ru)) = GC!CloneSelf_Post(ru)
+    /\ \A D \in DestTables, ru \in RuClone : (CloneFrom_En(D, ru) /\ GC!CloneFromInto_En(D, ru)) =>
+           CntOf(CloneFrom_Post(D, ru)) = GC!CloneFromInto_Post(D, ru)
 =============================================================================
